@@ -403,7 +403,15 @@ func mutateTemplate(segs []model.Seg, kind string, site int) (string, bool) {
 		}
 		name := []rune(s[i].Node.Text)
 		other := "zz"
-		switch site % 4 { // besides an unrelated name: a proper prefix of the section's name, the name extended, the name with another last letter
+		switch site % 8 { // besides an unrelated name: a proper prefix of the section's name, the name extended, the name with another last letter, a section word in another letter case, the three-part spelling with another name
+		case 4:
+			other = "IF"
+		case 5:
+			other = "Unless"
+		case 6:
+			other = "if zz"
+		case 7:
+			other = "unless zz"
 		case 1:
 			if len(name) > 1 {
 				other = string(name[:len(name)-1])
